@@ -2,14 +2,14 @@ from pyvc.runner import Prop, Fn, Lem, Ground, Native
 
 PROP = Prop(
     'C19',
-    modules=[],
-    tasks=[],
+    modules=['contracts.parser_c01'],
+    tasks=[Ground('bounded.parser_ground.serializer'), Fn('hpl.cli._ast_object_serializer', safety_tag='C19')],
     bounded=[Native('bounded.parser_native.cli')],
-    level='exploration',
-    explanation='BOUNDED at this commit: the deciding part of this property lies in third-party code (Lark LALR parser and lexer; '
-                'attrs.asdict / json / argparse for the CLI), which no contract on /repo code can decide; the parser callbacks '
-                'are being put under contract separately.',
-    assumptions=['A-LARK: Lark decides precedence, associativity, layout, accept/reject, longest match from the grammar text',
-                 'A-3P: attrs.asdict, json.dumps, argparse'],
-    trusted_base=['CPython', 'lark 1.3.1'],
+    level='other',
+    explanation='proved/ground: the value serializer maps enum members to their values, non-finite floats to None and leaves '
+                'every other value unchanged. BOUNDED (A-3P): that attrs.asdict passes every field through it, that json.dumps '
+                'emits one strictly valid document, argparse behaviour and the exit status of main() - in-process runs of '
+                'hpl.cli.main compared with an independent walk of the AST.',
+    assumptions=['A-3P: attrs.asdict, json.dumps, argparse, pathlib are third-party / standard library'],
+    trusted_base=['CPython json/argparse', 'attrs.asdict'],
 )
